@@ -90,8 +90,10 @@ func in(xs []string, s string) bool {
 	return false
 }
 
-func (s *Stmt) isSkip() bool    { return s.Level == "skip" }
-func (s *Stmt) isNonSkip() bool { return s.Level == "strict" || s.Level == "permissive" || s.Level == "audit" }
+func (s *Stmt) isSkip() bool { return s.Level == "skip" }
+func (s *Stmt) isNonSkip() bool {
+	return s.Level == "strict" || s.Level == "permissive" || s.Level == "audit"
+}
 
 func (s *Stmt) setOverride(k, v string) {
 	for i := range s.Override {
